@@ -337,6 +337,7 @@ def prop_C12(run):
     rules_mpt.mesen_header_rule(run)
     rules_mpt.symbol_bank_rule(run)
     rules_mpt.listing_reads_within_span(run)
+    rules_mpt.listing_excerpt_one_line(run)
     # the symbol listings take the children of a scope from a hash map: listed in declaration order only through the sort
     import rules_det
     rules_det.det1(run, fns=[f for f in run.prog.real_fns() if (f.raw.get("root") or f.id).startswith("util::symbol_format::")])
